@@ -289,6 +289,13 @@ class Intervals:
                 iv = (v, v)
             else:
                 iv = ty_range(dst_ty or "") or (0, 2 ** 63)
+                en = self.mir.enums.get((rv.get("of") or "").split("<")[0])
+                if en and en["variants"]:
+                    ds = [int(x["discr"]) for x in en["variants"]]
+                    r = ty_range(dst_ty or "")
+                    if r and r[0] < 0:
+                        ds = [d - 2 ** 128 if d >= 2 ** 127 else d for d in ds]
+                    iv = (min(ds), max(ds))
         elif kind == "agg":
             for i, o in enumerate(rv["ops"]):
                 v = self.val(env, o)
